@@ -34,6 +34,57 @@ def half_tile(pos):
     return [[(n, tuple(f(p) for p in ps)) for n, ps in r] for r in pos]
 
 
+_USED = [None, 0]
+
+
+class UsedObjectRaised(Exception):
+    pass
+
+
+def _compile_on_used_object(text):
+    from explorerscript.ssb_script.ssb_converting.ssb_compiler import SsbScriptSsbCompiler
+
+    if _USED[0] is None:
+        _USED[0] = SsbScriptSsbCompiler()
+    c = _USED[0]
+    if _USED[1] % 3 == 0:
+        try:
+            c.compile("def 0 {\n    Oops(;\n}\n")
+        except Exception:
+            pass
+    _USED[1] += 1
+    try:
+        c.compile(text)
+    except Exception as e:
+        raise UsedObjectRaised(type(e).__name__, str(e)[:200])
+    return c
+
+
+def big_spec(r, ncases):
+    """a dispatch table: one switch, many cases, each with its own handler (more than a hundred labels in one file)"""
+    ops = [(0, "Switch", [("const", "$V")])]
+    n = 1
+    heads = []
+    for k in range(ncases):
+        heads.append(n)
+        ops.append([n, "Case", [("int", k), None]])
+        n += 1
+    ops.append([n, "Jump", [None]])
+    endjump = len(ops) - 1
+    n += 1
+    for k in range(ncases):
+        ops[1 + k][2][1] = ("int", n)
+        ops.append((n, f"handler_{k}", [("int", k)]))
+        n += 1
+        ops.append([n, "Jump", [None]])
+        n += 1
+    ops.append((n, "End", []))
+    for o in ops:
+        if isinstance(o, list) and o[1] == "Jump":
+            o[2][0] = ("int", n)
+    return {"routines": [{"kind": "GENERIC", "target": None, "name": None, "ops": [tuple(o) if isinstance(o, list) else o for o in ops]}]}
+
+
 def roundtrip(acc, infos, ops, named, inp):
     before = half_tile(norm.positional(ops))
     binfo = norm.infos(infos, named)
@@ -51,6 +102,15 @@ def roundtrip(acc, infos, ops, named, inp):
     from explorerscript.error import ParseError, SsbCompilerError
     try:
         c = norm.compile_ssbs(text)
+        # a compiler object that was used before (also on a text with a syntax error) has to give the same
+        again = _compile_on_used_object(text)
+        if again is not None and (half_tile(norm.positional(again.routine_ops)) != half_tile(norm.positional(c.routine_ops))
+                                  or norm.infos(again.routine_infos, again.named_coroutines) != norm.infos(c.routine_infos, c.named_coroutines)):
+            acc.violation(gsig("used-compiler-object-compiles-differently"), {"uses_before": _USED[1]}, dict(inp, text=text))
+            return
+    except UsedObjectRaised as e:
+        acc.violation(gsig("used-compiler-object-rejects-the-text", e.args[0]), {"error": e.args[1], "uses_before": _USED[1]}, dict(inp, text=text))
+        return
     except (ParseError, SsbCompilerError, ValueError) as e:
         acc.violation(gsig("ssbs-text-rejected", type(e).__name__), {"error": str(e)[:200], "text": text[:1500]}, dict(inp, text=text))
         return
@@ -97,6 +157,16 @@ def run_shard(shard, acc):
     monitors.install()
     rnd = random.Random(shard["seed"])
     if shard["kind"] == "random_ssb":
+        # long routines with many labels (label tables, caches and counters have sizes)
+        for ncases in (rnd.choice([130, 150, 200]), rnd.choice([300, 520])):
+            spec = big_spec(rnd, ncases)
+            infos, ops, named = norm.make_ops(spec)
+            roundtrip(acc, infos, ops, named, {"spec": spec})
+            acc.count("big_sets")
+            spec = random_ssb(rnd, hostile=0.0, max_routines=3, max_ops=250)
+            infos, ops, named = norm.make_ops(spec)
+            roundtrip(acc, infos, ops, named, {"spec": spec})
+            acc.count("big_sets")
         for i in range(shard["n"]):
             hostile = rnd.choice([0.0, 0.0, 0.3, 1.0])
             spec = random_ssb(rnd, hostile=hostile)
@@ -123,7 +193,8 @@ def run_shard(shard, acc):
 def summarize(agg, tier):
     c = agg["counters"]
     cov = {
-        "programs": c.get("roundtrips", 0),
+        "programs": max(c.get("roundtrips", 0), c.get("random_sets", 0) + c.get("compiled_sets", 0) + c.get("big_sets", 0)),
+        "roundtrips_completed": c.get("roundtrips", 0),
         "disagreements_checked": c.get("ops_compared", 0),
         "rule": "random SSB routine sets and renumbered compiler outputs; distinct by description; non-trivial = contains a jump-carrying op; "
                 "each set is spelled as SsbScript by the real decompiler and compiled back by the real SsbScript compiler",
